@@ -48,12 +48,11 @@ Proof. unfold BTreeSpec.expect. rewrite out_eqb_refl. reflexivity. Qed.
 Lemma Inv_sorted (s : state) : Inv s -> ssorted V (abs_of s).
 Proof. intros H. exact (abs_sorted V vlen _ _ _ _ H). Qed.
 
-(* every in-scope operation from a well-formed tree either takes the zero-separator panic branch (outcome code
-   F_ZSEP, result RPanic, rejected by the specification) or is regular and returns what an ordered map returns *)
+(* every in-scope operation from a well-formed tree is regular and returns what an ordered map returns *)
 Definition step_post (s : state) (o : op) : Prop :=
   match spec_check (abs_of s) o (snd (fst (step s o))) with
   | SOk m' => snd (step s o) = 0 /\ m' = abs_of (fst (fst (step s o))) /\ Inv (fst (fst (step s o)))
-  | SBad => snd (step s o) = F_ZSEP
+  | SBad => False
   | SOut => True
   end.
 
@@ -71,12 +70,11 @@ Lemma ins_res_spec m (s : state) (e : entry) res :
          | None => expect_ins V vlen veqb (snd (fst res)) (ok_out V m) e (abs_of s)
          end) with
   | SOk m' => snd res = 0 /\ m' = abs_of (fst (fst res)) /\ Inv (fst (fst res))
-  | SBad => snd res = F_ZSEP
+  | SBad => False
   | SOut => True
   end.
 Proof.
-  intros HI [[Hz Hr] | [Hf [HI' Hc]]].
-  - rewrite Hr. destruct (om_get V (fst e) (abs_of s)); destruct m; cbn; exact Hz.
+  intros HI [Hf [HI' Hc]].
   - pose proof (Inv_sorted s HI) as Hs. pose proof (Inv_sorted _ HI') as Hs'.
     destruct Hc as [(Hin & Ha & Hr) | [(Hp & Hr) | (Ha & Hr & Habsent & Hbig)]].
     + destruct (om_get V (fst e) (abs_of s)) eqn:E; [|apply om_get_none in E; contradiction].
@@ -156,15 +154,14 @@ Proof.
     cbn [BTree.step BTreeSpec.spec_check fst snd]. rewrite expect_same. split; [reflexivity|]. split; [reflexivity | exact HI].
 Qed.
 
-Lemma run_refines_l : forall (ops : list op) (s : state), Inv s -> no_zsep V (fst (run s ops)) = true ->
+Lemma run_refines_l : forall (ops : list op) (s : state), Inv s ->
   spec_run V vlen veqb (abs_of s) (combine ops (map fst (fst (run s ops)))) = true.
 Proof.
-  induction ops as [|o r IH]; intros s HI Hc; [reflexivity|]. cbn [BTree.run] in *.
+  induction ops as [|o r IH]; intros s HI; [reflexivity|]. cbn [BTree.run] in *.
   pose proof (step_ok s o HI) as Hst. unfold step_post in Hst.
-  destruct (step s o) as [[s' ot] f] eqn:Es. destruct (run s' r) as [res sf] eqn:Er. cbn [fst snd map combine no_zsep forallb BTreeSpec.spec_run] in *.
-  apply andb_true_iff in Hc as [Hf Hc]. apply negb_true_iff, Z.eqb_neq in Hf.
+  destruct (step s o) as [[s' ot] f] eqn:Es. destruct (run s' r) as [res sf] eqn:Er. cbn [fst snd map combine BTreeSpec.spec_run] in *.
   destruct (spec_check (abs_of s) o ot) as [m' | |]; [|contradiction | reflexivity].
-  destruct Hst as (_ & -> & HI'). specialize (IH s' HI'). rewrite Er in IH. cbn [fst] in IH. apply IH. exact Hc.
+  destruct Hst as (_ & -> & HI'). specialize (IH s' HI'). rewrite Er in IH. cbn [fst] in IH. exact IH.
 Qed.
 
 Lemma run_final_l : forall (ops : list op) (s : state) mf, Inv s ->
